@@ -63,7 +63,11 @@ def _treat_expl_comment(block: ExplicitComment, bibtex_format: "BibtexFormat") -
 
 def _treat_failed_block(block: ParsingFailedBlock, bibtex_format: "BibtexFormat") -> List[str]:
     lines = len(block.raw.splitlines())
-    parsing_failed_comment = bibtex_format.parsing_failed_comment.format(n=lines)
+    try:
+        parsing_failed_comment = bibtex_format.parsing_failed_comment.format(n=lines)
+    except (KeyError, IndexError, ValueError):
+        # Not a template with (only) the `{n}` placeholder, e.g. a text with other braces: use it as it is.
+        parsing_failed_comment = bibtex_format.parsing_failed_comment
     return [parsing_failed_comment, "\n", block.raw, "\n"]
 
 
